@@ -62,6 +62,31 @@ ARGS = [[], ["a"], ["-x", "b"], ["help"], ["version"], ["--help"], ["-h"], ["--v
 MALFORMED = ["'unterminated", '"unterminated', "ls |", "| ls", "ls &&", "&& ls", "ls ;;", "if", "if true; then", "for", "case x in", "( ls", "ls )", "{ ls", "$(", "$((", "`", "ls > ", "ls <<", "ls \\", ";", "&", "!", "((", "[[", "[[ ]]", "fi", "done", "esac", "ls; )", "echo ${", "echo ${x", "a=(", "\x00", "ls\x00rm", "   ", "\t\n", "", "\n\n", "#only comment", "ls # c", "function", "function f", "f()", "select", "until", "while", "coproc", "time", "! !"]
 
 
+CMD_POSITIONS = [
+    "@", "X=1 @", "X=1 Y='a b' @", "time @", "! @", "( @ )", "{ @; }", "ls | @", "@ | cat", "true && @", "false || @", "ls; @", "@ &", "ls\n@",
+    "if @; then :; fi", "if true; then @; fi", "if false; then :; else @; fi", "if false; then :; elif @; then :; fi", "while @; do break; done", "until @; do break; done",
+    "while true; do @; break; done", "for i in a; do @; done", "for ((i=0;i<1;i++)); do @; done", "case x in x) @ ;; esac", "case x in a) : ;; *) @ ;; esac",
+    "f() { @; }; f", "function g { @; }; g", "coproc @", "echo $(@)", "echo `@`", "cat <(@)", "echo hi > >(@)", "echo ${x:-$(@)}", "echo \"${x:-$(@)}\"", "[[ -n $(@) ]]", "(( $(@) ))",
+    "echo $(( $(@) + 1 ))", "cat <<EOF\n$(@)\nEOF", "echo hi > $(@)", "a[$(@)]=1", "for i in $(@); do :; done", "case $(@) in x) ;; esac",
+    "nohup @", "timeout 5 @", "timeout -s KILL 30s @", "nice -n 5 @", "command @", "command -- @", "env @", "env A=1 @", "env -u X @", "env -vu X @", "ls | xargs @", "ls | xargs -n1 @", "ls | xargs -rE EOF @",
+    "sh -c '@'", "bash -lc '@'", "env -S '@'", "find . -maxdepth 0 -exec @ \\;", "find . -exec @ {} +", "strace @", "nohup nice timeout 5 @", "time nohup @",
+]
+UNKNOWN_NAMES = ["zz_unknown_tool", "\"zz_unknown_tool\"", "zz_unknown\\_tool", "'zz_unknown_tool'", "./zz_unknown_tool", "/opt/zz/bin/tool", "zz-tool.sh", "7zq", "ZZ_TOOL", "ls_", "git2", "rmm", "~/bin/zz", "zz\"_\"tool"]
+UNKNOWN_ARGS = [["--force"], [], ["x", "y"], ["-rf", "x"], ["run", "--prod"]]
+
+
+def unknown_matrix():
+    """an unknown program in every command position x spellings of its name x argument lists (never a help request):
+    deterministic, exercised on every run"""
+    for pos in CMD_POSITIONS:
+        for name in UNKNOWN_NAMES:
+            for args in UNKNOWN_ARGS:
+                cmd = " ".join([name] + args)
+                if "'" in pos.replace("@", "") and "'" in cmd:
+                    continue  # would need nested single quotes
+                yield pos.replace("@", cmd)
+
+
 def correspondence(ctx):
     from dippy.core.config import parse_config
 
@@ -164,6 +189,17 @@ def search(ctx):
                 vios.append({"input": {"command": text, "config": "", "cwd": CWD}, "observed": {"verdict": d2.action, "reason": d2.reason, "program_bash_runs": real}, "required": "a function definition that is not in effect does not make an unknown program known: never allow", "oracle": "unknown-asks"})
         if len(vios) >= 5:
             break
+    # the deterministic matrix: an unknown program in every command position is never auto-approved
+    for cmd in unknown_matrix():
+        try:
+            d = analyze(cmd, cfg, Path(CWD))
+        except Exception:  # noqa: BLE001
+            continue
+        stats["evaluations"] += 1
+        stats["matrix:" + d.action] += 1
+        if d.action == "allow" and stats["matrix_violations"] < 5:
+            stats["matrix_violations"] += 1
+            vios.insert(0, {"input": {"command": cmd, "config": "", "cwd": CWD}, "observed": {"verdict": d.action, "reason": d.reason}, "required": "an unknown program (no table, no rule, not a help request) in any command position: never allow", "oracle": "unknown-asks(position matrix)"})
     # the always-safe list must not contain a program that runs its arguments (table obligation
     # no_launcher_in_simple_safe): probe each launcher with an inner command that needs a prompt
     for L in ["eval", "exec", "source", "sh", "bash", "zsh", "xargs", "env", "sudo", "doas", "watch", "parallel", "chroot", "nsenter", "setsid", "nohup", "timeout", "nice", "strace", "builtin", "stdbuf", "flock", "ionice", "taskset"]:
